@@ -87,12 +87,14 @@ Definition C07_seamless_cursor_final_full : Prop :=
 (* The final-blocks-only clause in target-cursor mode (PROVED: c07_seamless_target_final, Proofs/C07_FinalTarget.v).  The
    memory starts empty (start_mem = None; c07_prop checks final_fold None).  Scope of C07_seamless_target (cursor block B on
    canon) for a final cursor (cursor LIB = cursor block; a cursor that is not on a final block is rejected), but WITHOUT
-   its two agreement hypotheses files_on_hub / target_on_chain, which a final-blocks-only handler does not need:
+   the agreement hypothesis target_on_chain (nor files_on_hub, which C07_seamless_target had before the fix "target join on
+   identity"), which a final-blocks-only handler does not need:
      - a final target cursor is never answered through the "cursor block stored off the chain" branch of
        blocksThroughCursor (that branch needs blocks_from_cursor = BOk, hence the cursor LIB - the cursor block itself -
        on the head's segment);
-     - the join is not made on identity in this mode, so the hub's answer for number n may start with a forked sibling of
-       the file block - but its new+irreversible part consists of the segment blocks numbered n .. hub LIB, which are final
+     - whether or not the join is made on identity (it is when the cursor block is below the file block, since the fix
+       "target join on identity"; the proof does not use it): the hub's answer for number n might start with a forked
+       sibling of the file block - but its new+irreversible part consists of the segment blocks numbered n .. hub LIB, which are final
        for the hub, hence on canon (seg_on_canon): the file block itself when n <= hub LIB, nothing otherwise; the New
        events of a forked answer never reach the handler.
    For every outcome each delivered block extends the previous one; when the stream ends waiting it has delivered a
